@@ -553,6 +553,11 @@ class Emitter:
                     elif c == ";":
                         break
                     elif c == "}":
+                        k = j + 1
+                        while k < len(body) and body[k].isspace():
+                            k += 1
+                        if k < len(body) and body[k] == ";":
+                            j = k  # `unsafe { stmt };`
                         break
                     j += 1
                 if j >= len(body) or body[j] != ";":
